@@ -1,6 +1,7 @@
 """C20 - Semaphore counts acquisitions (complete at register-transfer level)."""
 
 from .common import *
+from . import excl
 from ..pm import pmatch, pat
 
 REL = "transactron/lib/fifo.py"
@@ -35,6 +36,7 @@ def check(ctx):
     comp.require_modelled("C20")
     ex = one_config(comp, "C20")
     acq, rel, clr = (need_body(ex, n, "C20", comp.site) for n in ("acquire", "release", "clear"))
+    excl.exclusive(ctx, "C20", "Semaphore", acq, rel)
     cnt = pat("self.count")
     decl = comp.init_attr("count")
     m = pmatch("Signal(range(Q_n))", decl) if decl else None
